@@ -239,16 +239,37 @@ pub fn run(tier: Tier) -> i32 {
     ctx.assume("MPD's tokenizer is as ported in mpdref::tokenizer (Tokenizer.cxx NextWord/NextParam/NextString/NextUnquoted, StripRight, C-string semantics)");
     ctx.assume("arguments the builder rejects are outside the claim");
 
-    let single_len = tier.pick(4, 6);
-    let singles = strings_over(SIGMA, single_len);
-    let pair_pool = strings_over(SIGMA, 2);
+    let single_len = tier.pick(5, 7);
+    let pair_pool = strings_over(SIGMA, tier.pick(2, 3));
     let triple_pool = strings_over(SIGMA, 1);
 
-    let acc1 = singles
-        .par_chunks(4096)
-        .map(|chunk| {
+    // every string of length 0..=single_len, generated from its index (not materialised)
+    let mut total: u64 = 0;
+    let mut offsets = vec![0u64];
+    for l in 0..=single_len {
+        total += (SIGMA.len() as u64).pow(l as u32);
+        offsets.push(total);
+    }
+    let nth = |mut i: u64| -> String {
+        let mut len = 0;
+        while i >= offsets[len + 1] {
+            len += 1;
+        }
+        i -= offsets[len];
+        let mut s = String::new();
+        for _ in 0..len {
+            s.push_str(SIGMA[(i % SIGMA.len() as u64) as usize]);
+            i /= SIGMA.len() as u64;
+        }
+        s
+    };
+    let chunk = 8192u64;
+    let acc1 = (0..total.div_ceil(chunk))
+        .into_par_iter()
+        .map(|c| {
             let mut acc = Acc::default();
-            for s in chunk {
+            for i in c * chunk..((c + 1) * chunk).min(total) {
+                let s = nth(i);
                 check_case("cmd", &[s.as_str()], &mut acc, false);
             }
             acc
@@ -299,7 +320,7 @@ pub fn run(tier: Tier) -> i32 {
     cov.evaluations = acc.evaluations;
     cov.distinct_nontrivial = acc.nontrivial;
     cov.rule = format!(
-        "every string over {} class representatives {:?} of length 0..={} as single argument, all pairs of strings of length <=2, all triples of length <=1, plus long argument lists; each case is distinct by construction; non-trivial = some argument is empty or contains a byte <=0x20, a quote, a backslash or a non-ASCII byte",
+        "every string over {} class representatives {:?} of length 0..={} as single argument, all pairs of strings of length <=2 (thorough: <=3), all triples of length <=1, plus long argument lists; each case is distinct by construction; non-trivial = some argument is empty or contains a byte <=0x20, a quote, a backslash or a non-ASCII byte",
         SIGMA.len(),
         SIGMA.iter().map(|s| show_bytes(s.as_bytes())).collect::<Vec<_>>(),
         single_len
@@ -311,7 +332,7 @@ pub fn run(tier: Tier) -> i32 {
     cov.set("accepted_by_builder", json!(acc.accepted));
     cov.set("rejected_by_builder", json!(acc.rejected));
     cov.set("state_meaning", json!("states = distinct (name, argument list) inputs; transitions = request lines rendered by the real code and decoded by the tokenizer port"));
-    cov.set("bounds", json!({"single_argument_max_len": single_len, "pair_max_len": 2, "triple_max_len": 1, "impls": ["&str", "String", "Cow<str>"], "paths": ["Connection::send", "CommandList render (N=2)"]}));
+    cov.set("bounds", json!({"single_argument_max_len": single_len, "pair_max_len": tier.pick(2, 3), "triple_max_len": 1, "impls": ["&str", "String", "Cow<str>"], "paths": ["Connection::send", "CommandList render (N=2)"]}));
     cov.samples = vec![
         json!({"args": ["a b"], "wire": show_bytes(&wire_of_command(Command::new("cmd").argument("a b")))}),
         json!({"args": ["\u{e9}~", "x\ty"], "wire": show_bytes(&wire_of_command(Command::new("cmd").argument("\u{e9}~").argument("x\ty")))}),
